@@ -131,7 +131,7 @@ def record(lentil, tier, seed):
         else:
             gain = [[[g(allow_neg) for _ in range(n)] for _ in range(m)] for _ in range(order)]
             gj, greal = [[[sp.rj(x) for x in r] for r in p] for p in gain], np.array([[[float(x) for x in r] for r in p] for p in gain])
-        sat = rng.choice((None, None, top // 2, top // 4, 1, 0))           # (a capacity of zero is a capacity: everything clips to it)
+        sat = rng.choice((None, None, top // 2, top // 4, 1, 0, Fr(top, 2) + Fr(1, 2), Fr(top // 4 * 4 + 3, 4)))     # zero and fractional capacities are capacities
         warnflag = rng.random() < 0.5
         # electron counts arrive as floats or as integer counts of any width (a count is a count)
         ein = e.astype(rng.choice((float, float, np.int64, np.int32, np.int16, np.float32)))
@@ -139,7 +139,7 @@ def record(lentil, tier, seed):
         try:
             with warnings.catch_warnings():
                 warnings.simplefilter('ignore')
-                peak = float(np.max(d.adc(ein.copy(), greal, saturation_capacity=sat)))
+                peak = float(np.max(d.adc(ein.copy(), greal, saturation_capacity=None if sat is None else (int(sat) if Fr(sat).denominator == 1 else float(sat)))))
         except Exception:
             peak = 0.0
         dtype = rng.choice([None, 'int64'] + (['uint16'] if peak < 65000 else []) + (['int32', 'uint32'] if peak < 2 ** 31 - 1 else [])
@@ -148,9 +148,10 @@ def record(lentil, tier, seed):
         with warnings.catch_warnings(record=True) as wl:
             warnings.simplefilter('always')
             try:
-                dn = d.adc(ein, greal, saturation_capacity=sat, warn_saturate=warnflag, dtype=None if dtype is None else np.dtype(dtype))
+                dn = d.adc(ein, greal, saturation_capacity=None if sat is None else (int(sat) if Fr(sat).denominator == 1 else float(sat)), warn_saturate=warnflag,
+                           dtype=None if dtype is None else np.dtype(dtype))
             except Exception as ex:
-                add({'act': 'adc', 'e': e.tolist(), 'form': form, 'gain': gj, 'sat': [] if sat is None else [sat], 'dn': [[-1]], 'warned': False,
+                add({'act': 'adc', 'e': e.tolist(), 'form': form, 'gain': gj, 'sat': [] if sat is None else [sp.rj(Fr(sat))], 'dn': [[-1]], 'warned': False,
                      'warnflag': warnflag, 'eafter': e.tolist(), 'dtype': 'x', 'dtypeobs': type(ex).__name__})
                 continue
         warned = any('saturat' in str(w.message).lower() for w in wl)
@@ -158,7 +159,7 @@ def record(lentil, tier, seed):
             dnl = [[-7]]
         else:
             dnl = np.asarray(dn).astype(np.int64).tolist()
-        add({'act': 'adc', 'e': e.tolist(), 'form': form, 'gain': gj, 'sat': [] if sat is None else [sat], 'dn': dnl, 'warned': bool(warned),
+        add({'act': 'adc', 'e': e.tolist(), 'form': form, 'gain': gj, 'sat': [] if sat is None else [sp.rj(Fr(sat))], 'dn': dnl, 'warned': bool(warned),
              'warnflag': warnflag, 'eafter': np.asarray(ein).astype(np.int64).tolist() if np.array_equal(ein, np.round(ein)) else [[-9]],
              'dtype': dtype or 'any', 'dtypeobs': (str(np.asarray(dn).dtype) if dtype is not None else 'any')})
         if not np.array_equal(ein, e0):
